@@ -6,5 +6,5 @@ Extraction "model_agg.ml"
   Q2Qc Qcplus Qcmult Qcminus Qcopp Qcinv Qcdiv Qccompare Coq.QArith.Qcabs.Qcabs
   Qc_ltb Qc_leb Qc_eqb Qc_gtb
   graph_wfb symmetricb reflexiveb isolatedb st_code
-  q_mis2 q_mis2_fuel q_aggregate
+  q_mis2 q_aggregate
   mis_ok decidedb indep2b maximal2b agg_ok agg_ok_glob root_list.
